@@ -19,6 +19,7 @@ RULES = {
              "outside the supported set",
     "R10.4": "Feedback::parameters sums parameters() of positions 0..coupled.len() only (each shared parameter once), over all variants",
 }
+RULES["R10.4"] += " | network-count-delegates: network::Layer::parameters delegates per variant to the payload's own parameters() (a block is counted by Feedback::parameters, Maxpool => 0)"
 ASSUMPTIONS = ["that the tied value is a sensible optimisation step is not claimed by the property and not decided"]
 TRUSTED = ["rustc nightly front end", "driver/src/main.rs", "sa/e1.py", "sa/e4.py"]
 
